@@ -1,10 +1,16 @@
-#!/bin/sh
-# build the framework from files on disk only (offline)
-set -e
+#!/bin/bash
+# build the framework from files on disk only (offline). Only the properties enabled in claims.d/ENABLED are built;
+# every check rebuilds what it needs anyway, so a failure here is reported by the check of that property, not here.
 cd "$(dirname "$0")"
 mkdir -p work evidence
 export CARGO_NET_OFFLINE=true
 [ -f tools/gen_tables.py ] && python3 tools/gen_tables.py
-(cd lean && lake build ArrModel ArrProofs && for f in Driver/C*.lean; do lake build drv_$(basename $f .lean | tr A-Z a-z); done)
-(cd harness && cp /repo/Cargo.lock Cargo.lock 2>/dev/null || true; cargo build --release --offline)
-echo setup-ok
+cp /repo/Cargo.lock harness/Cargo.lock 2>/dev/null || true
+ok=0
+for p in $(cat claims.d/ENABLED); do
+  lp=$(echo "$p" | tr A-Z a-z)
+  (cd lean && lake build "ArrProofs.Props.$p" "drv_$lp") > "work/setup_$p.log" 2>&1 && \
+  (cd harness && cargo build --release --offline --bin "$lp") >> "work/setup_$p.log" 2>&1 && ok=$((ok+1)) || echo "setup: $p did not build (see work/setup_$p.log)"
+done
+echo "setup-ok ($ok properties built)"
+[ "$ok" -gt 0 ]
